@@ -102,8 +102,10 @@ where
     fn recv_retire_cid_frame(&mut self, frame: RetireConnectionIdFrame) -> Result<(), Error> {
         let seq = frame.sequence();
         if seq >= self.cid_deque.largest() {
+            // RFC 9000 section 19.16: a sequence number greater than any previously sent to the
+            // peer MUST be treated as a connection error of type PROTOCOL_VIOLATION.
             return Err(QuicError::new(
-                ErrorKind::ConnectionIdLimit,
+                ErrorKind::ProtocolViolation,
                 frame.frame_type().into(),
                 format!(
                     "Sequence({seq}) in RetireConnectionIdFrame exceeds the largest one({}) issued by us",
